@@ -609,6 +609,53 @@ def run_fixture_component(seed, tier, name):
 CUSTOM["fixture"] = run_fixture_component
 
 
+def run_integrity_component(seed, tier, name):
+    """C04 sweep on the implementation: all single-bit flips, single-field perturbations, pairwise swaps, round surgery"""
+    t0 = time.time()
+    res = CompResult()
+    outdir = os.path.join(WORK, name)
+    shutil.rmtree(outdir, ignore_errors=True)
+    os.makedirs(outdir, exist_ok=True)
+    res.outdir = outdir
+    curves = ["secq256k1", "zorro", "curve25519"]
+    procs = [subprocess.Popen([BIN, "integrity", "--seed", str(seed), "--tier", tier, "--out", outdir, "--curves", c],
+                              stdout=subprocess.PIPE, stderr=subprocess.STDOUT, text=True, env=ENV) for c in curves]
+    outs = [p.communicate(timeout=6000)[0] for p in procs]
+    res.crashes = []
+    res.integrity = []
+    for c, p_, o in zip(curves, procs, outs):
+        if p_.returncode != 0:
+            mf = os.path.join(outdir, "current_%s.txt" % c)
+            t = open(mf).read().split() if os.path.exists(mf) else []
+            what, hx = (t + ["unknown", ""])[0], (t + ["", ""])[1]
+            res.crashes.append({"curve": c, "what": what, "input_hex": hx, "exit": p_.returncode, "message": o[-200:]})
+            res.disagreements.append(("crash:%s" % c, 0, "harness process died (exit %s) while handling [%s] %s" % (p_.returncode, what, hx[:120])))
+            continue
+        for l in open(os.path.join(outdir, "integrity_%s.txt" % c)).read().splitlines():
+            t = l.split()
+            if t[0] in ("FLIP", "FIELD", "SWAP", "ROUNDS", "ADAPT"):
+                d = dict(x.split("=", 1) for x in t[3:])
+                row = {"kind": t[0], "curve": c, "proof": int(t[2]), "first": d.pop("first")}
+                row.update({k: int(v) for k, v in d.items()})
+                res.integrity.append(row)
+                if row["accepted"] or row["panicked"]:
+                    res.disagreements.append(("%s:%s:%d" % (t[0], c, row["proof"]), 50, "%d altered proofs accepted, %d panics; first: %s" % (row["accepted"], row["panicked"], row["first"][:200])))
+            elif t[0] == "BASE":
+                d = dict(x.split("=", 1) for x in t[3:])
+                res.integrity.append({"kind": "BASE", "curve": c, "proof": int(t[2]), **{k: int(v) for k, v in d.items()}})
+                if d.get("verdict") != "0":
+                    res.disagreements.append(("BASE:%s:%s" % (c, t[2]), 50, "the unaltered proof is not accepted (verdict %s)" % d.get("verdict")))
+            elif t[0] == "INTEGRITY-ERROR":
+                res.disagreements.append(("BASE:%s" % c, 50, l))
+    res.cases = sum(r.get("total", 0) for r in res.integrity)
+    res.summary = {"integrity": {"curve": "all", "line": "integrity sweep: " + "; ".join("%s %s#%d %d" % (r["kind"], r["curve"], r["proof"], r.get("total", 0)) for r in res.integrity if r["kind"] != "BASE")[:600]}}
+    res.wall = time.time() - t0
+    return res
+
+
+CUSTOM["integrity"] = run_integrity_component
+
+
 # ---------------------------------------------------------------- evidence / verdict
 def write_evidence(pid, tier, seed, level, coverage, assumptions, wall, violations):
     os.makedirs(EVID, exist_ok=True)
